@@ -64,7 +64,8 @@ def gen_program(rng, k):
             prog.append(("app", bytes([cl.COM_QUERY]) + b"SELECT /*+ SET_VAR(sql_mode = 'H%d') SET_VAR(max_execution_time = %d) */ x FROM h%d" % (k, 100 + k, k)))
             prog.append(("cmd", bytes([cl.COM_QUERY]) + b"SELECT @@sql_mode, @@max_execution_time"))
         elif r < 0.68:
-            prog.append(("cmd", bytes([cl.COM_QUERY]) + rng.choice([b"SELECT @@sql_mode", b"SHOW VARIABLES LIKE 'sql_mode'", b"SELECT CONNECTION_ID() > 0"])))
+            prog.append(("cmd", bytes([cl.COM_QUERY]) + rng.choice([b"SELECT @@sql_mode", b"SHOW VARIABLES LIKE 'sql_mode'", b"SELECT CONNECTION_ID() > 0", b"SELECT @@external_user",
+                                                                       b"SHOW VARIABLES LIKE 'external_user'", b"SELECT @@external_user, @@sql_mode"])))
         elif r < 0.72:
             # text that ends inside a multi-byte character, through every decoding path (answered with ERR; whatever a decoder
             # keeps of it must not reach another connection)
